@@ -24,8 +24,11 @@ var (
 	_ json.Unmarshaler = (*Duration)(nil)
 )
 
-func (d *Duration) MarshalJSON() ([]byte, error) {
-	return json.Marshal(time.Duration(*d).String())
+// MarshalJSON has a value receiver so that a Duration is also encoded as a duration
+// string when the enclosing configuration is marshaled by value; a pointer receiver is
+// skipped there and the raw nanoseconds would be re-read as milliseconds.
+func (d Duration) MarshalJSON() ([]byte, error) {
+	return json.Marshal(time.Duration(d).String())
 }
 func (d *Duration) UnmarshalJSON(data []byte) error {
 	var a any
